@@ -33,7 +33,7 @@ func plansFor(prop string, thorough bool) ([]Plan, int) {
 			{Name: "gov", Const: "gov", Kinds: []string{"vote", "seen", "dkgres", "replay"}, Depth: d(4, 6),
 				SimNum: d(60, 1500), SimDepth: d(40, 60), MaxBeh: d(2500, 40000)},
 			{Name: "tie", Const: "tie", Kinds: []string{"vote", "dkgres"}, Depth: d(6, 8), MaxBeh: d(1500, 30000)},
-			{Name: "rot", Const: "rot", Kinds: []string{"vote", "seen"}, Depth: d(6, 8), MaxBeh: d(0, 0)},
+			{Name: "rot", Const: "rot", Kinds: []string{"vote", "seen", "badvote", "forged"}, Depth: d(5, 7), MaxBeh: d(0, 0)},
 		}, 1
 	case "C12":
 		return []Plan{
